@@ -2,11 +2,11 @@ package ksim
 
 import (
 	"context"
-	"os"
-	"strings"
 	"encoding/json"
 	"fmt"
 	"net/http"
+	"os"
+	"strings"
 	"time"
 
 	jsonpatch "github.com/evanphx/json-patch"
@@ -153,7 +153,7 @@ type Ctrl struct {
 
 type nopRecorder struct{}
 
-func (nopRecorder) Event(runtime.Object, string, string, string)                    {}
+func (nopRecorder) Event(runtime.Object, string, string, string)                  {}
 func (nopRecorder) Eventf(runtime.Object, string, string, string, ...interface{}) {}
 func (nopRecorder) AnnotatedEventf(runtime.Object, map[string]string, string, string, string, ...interface{}) {
 }
@@ -183,13 +183,13 @@ type fakeMgr struct {
 	cur    *capturedWatch
 }
 
-func (m *fakeMgr) GetClient() client.Client                       { return m.client }
-func (m *fakeMgr) GetScheme() *runtime.Scheme                     { return m.p.sim.Store.Scheme }
-func (m *fakeMgr) GetCache() cache.Cache                          { return m.cache }
-func (m *fakeMgr) GetAPIReader() client.Reader                    { return m.client }
+func (m *fakeMgr) GetClient() client.Client                        { return m.client }
+func (m *fakeMgr) GetScheme() *runtime.Scheme                      { return m.p.sim.Store.Scheme }
+func (m *fakeMgr) GetCache() cache.Cache                           { return m.cache }
+func (m *fakeMgr) GetAPIReader() client.Reader                     { return m.client }
 func (m *fakeMgr) GetEventRecorderFor(string) record.EventRecorder { return nopRecorder{} }
-func (m *fakeMgr) GetLogger() logr.Logger                         { return logr.Discard() }
-func (m *fakeMgr) GetRESTMapper() meta.RESTMapper                 { return m.p.sim.mapper }
+func (m *fakeMgr) GetLogger() logr.Logger                          { return logr.Discard() }
+func (m *fakeMgr) GetRESTMapper() meta.RESTMapper                  { return m.p.sim.mapper }
 func (m *fakeMgr) GetControllerOptions() cfgv1alpha1.ControllerConfigurationSpec {
 	return cfgv1alpha1.ControllerConfigurationSpec{}
 }
